@@ -156,7 +156,7 @@ Proof.
   - destruct (live_step b o l st H Ho Hr Hst) as (l' & st' & Ha & R & Hst' & Hw & Hc & _). exists l', st'. auto.
   - destruct (a_pop_lwf b o l H Ho Hr) as (l' & Ha & Hw).
     pose proof (a_pop_tree o l l' Ha) as Ht.
-    destruct (pop_step_tree o (ltree l) (ltree l') st Ho (preplace_ready_ltree o l) Hst Ht) as (st' & R & Hst').
+    destruct (pop_step_tree o (ltree l) (ltree l') st Ho eq_refl (preplace_ready_ltree o l) Hst Ht) as (st' & R & Hst').
     exists l', st'. destruct (pcontent_step o l l' Ha) as [Hc _]. auto.
 Qed.
 
